@@ -54,6 +54,10 @@ type Op struct {
 	// there (what sync.CloneReplica / reloadAndVerify do with an error: return it).
 	Obst  string `json:"obst,omitempty"`
 	Retry bool   `json:"retry,omitempty"`
+	// ulm: while the (first) call runs, the extent query (FIEMAP) of the destination's chain member FFail
+	// (1 = base ... head) fails: the process's descriptors on that file are swapped for descriptors of /dev/null
+	// and swapped back afterwards.  Retry as above.
+	FFail int `json:"ffail,omitempty"`
 	Mid  []Op   `json:"mid,omitempty"` // ulm: writes performed between the two critical sections
 	Race []Op   `json:"race,omitempty"` // ulmrace: writes issued by a concurrent writer
 }
@@ -501,6 +505,23 @@ func (r *runner) event(op Op) error {
 
 // obstructed runs one step while a directory stands where the step's metadata temp file goes
 func (r *runner) obstructed(op Op) error {
+	if op.FFail > 0 {
+		hx.QuiesceHoles()
+		ch := chainOf(r.dst)
+		if op.FFail > len(ch) {
+			return fmt.Errorf("ffail: no member %d", op.FFail)
+		}
+		restore, n, err := breakFile(r.ddir, ch[op.FFail-1])
+		if err != nil || n == 0 {
+			panic(fmt.Sprintf("fault injection on %s: %v (%d descriptors)", ch[op.FFail-1], err, n))
+		}
+		plain := op
+		plain.FFail = 0
+		err = r.event(plain)
+		hx.QuiesceHoles()
+		restore()
+		return err
+	}
 	name := "volume.meta"
 	if op.Obst == "head" {
 		if rep := r.dst.Replica(); rep != nil {
@@ -516,6 +537,62 @@ func (r *runner) obstructed(op Op) error {
 	err := r.event(plain)
 	os.Remove(ob)
 	return err
+}
+
+// breakFile swaps every descriptor of this process that refers to the file dir/name (by inode: a snapshot
+// file is the former head under a new link) for a descriptor of /dev/null, on which FIEMAP fails; the returned
+// function swaps the originals back.  The descriptors are collected first: the listing opens descriptors itself.
+func breakFile(dir, name string) (func(), int, error) {
+	ents, err := os.ReadDir("/proc/self/fd")
+	if err != nil {
+		return nil, 0, err
+	}
+	var st syscall.Stat_t
+	if err := syscall.Stat(filepath.Join(dir, name), &st); err != nil {
+		return nil, 0, err
+	}
+	var hits []int
+	for _, e := range ents {
+		fd, err := strconv.Atoi(e.Name())
+		if err != nil {
+			continue
+		}
+		var fs syscall.Stat_t
+		if err := syscall.Fstat(fd, &fs); err != nil || fs.Ino != st.Ino || fs.Dev != st.Dev {
+			continue
+		}
+		hits = append(hits, fd)
+	}
+	type sw struct{ fd, saved int }
+	var sws []sw
+	undo := func() {
+		for _, x := range sws {
+			syscall.Dup2(x.saved, x.fd)
+			syscall.Close(x.saved)
+		}
+	}
+	for _, fd := range hits {
+		saved, err := syscall.Dup(fd)
+		if err != nil {
+			undo()
+			return nil, 0, err
+		}
+		bad, err := syscall.Open("/dev/null", syscall.O_RDWR, 0)
+		if err != nil {
+			syscall.Close(saved)
+			undo()
+			return nil, 0, err
+		}
+		err = syscall.Dup2(bad, fd)
+		syscall.Close(bad)
+		if err != nil {
+			syscall.Close(saved)
+			undo()
+			return nil, 0, err
+		}
+		sws = append(sws, sw{fd, saved})
+	}
+	return undo, len(sws), nil
 }
 
 // ulm runs the real Server.UpdateLUNMap with the writes of op.Mid landing between its two critical
@@ -568,6 +645,17 @@ func (r *runner) ulm(op Op) error {
 		sl = 3000
 	}
 	time.Sleep(time.Duration(sl) * time.Microsecond)
+	select {
+	case err := <-done:
+		// UpdateLUNMap gave up during its preload (it never asks for the lock again): nothing is written
+		s.RUnlock()
+		hx.QuiesceHoles()
+		if err != nil {
+			return err
+		}
+		return fmt.Errorf("ulm: missed the window between the critical sections")
+	default:
+	}
 	var werr error
 	for _, w := range op.Mid {
 		if err := r.bothWrite(w, true); err != nil {
@@ -799,7 +887,7 @@ func runCase(c Case, work string) (out Out) {
 	r.dstPunch = false // sync.AddReplica: types.ShouldPunchHoles = false in the rebuilding process
 	for i, ev := range c.Ev {
 		var err error
-		if ev.Obst != "" {
+		if ev.Obst != "" || ev.FFail > 0 {
 			err = r.obstructed(ev)
 			out.Res = append(out.Res, rc(err))
 			if err != nil {
@@ -809,6 +897,7 @@ func runCase(c Case, work string) (out Out) {
 				}
 				plain := ev
 				plain.Obst = ""
+				plain.FFail = 0
 				err = r.event(plain)
 				out.Res = append(out.Res, rc(err))
 			}
